@@ -13,6 +13,7 @@ the repository's own test-suite when run with pytest_plugin.py.
 from __future__ import annotations
 
 import functools
+import os
 import re
 from dataclasses import dataclass, field
 
@@ -304,6 +305,8 @@ def _plain(a):
         return a
     if isinstance(a, (list, tuple)):
         return [_plain(x) for x in a]
+    if isinstance(a, os.PathLike):
+        return os.fspath(a)
     return f"<{type(a).__name__}>"
 
 
@@ -399,6 +402,14 @@ def judge_module_rule(ev: Event) -> None:
         return
     if ev.outcome == "error":
         return
+    if "C03" in HUB.judges and ev.outcome == "fail" and wellformed and not names_exist and ev.message:
+        # a report that speaks about a module the architecture does not have names no offending and no missing import
+        absent = [n for k, n in cfg["subs"] + cfg["objs"] if k != "regex" and n not in mods]
+        named = [n for n in absent if f'"{n}"' in ev.message]
+        acc.count("c03_reports_of_rules_naming_absent_modules")
+        if named:
+            HUB.violation("C03", "report-names-a-module-that-does-not-exist", f"the report speaks about {named[0]!r}, which is no module of the architecture", {"cfg": cfg, "mods": sorted(mods), "message": ev.message})
+            return
     # -- universal part of C03: positive lines are real imports touching the subject ---
     if "C03" in HUB.judges and ev.outcome == "fail" and wellformed and names_exist and regex_ok:
         _judge_report_universal(ev, mods, imps)
